@@ -168,6 +168,17 @@ def run(ctx):
         one(ctx, toks, ctx.rng.choice(["utf-8", "x"]), reqs, reals, "G-tok")
     for i in range(ctx.scale(250, 6000)):
         roundtrip(ctx, doc(ctx.rng), ctx.rng.choice(ENCODINGS), ctx.rng.random() < 0.5)
+    # systematic: every declaration form x position relative to the 1024-byte prescan window x encoding
+    metas = ["<meta charset=x>", "<meta CHARSET=x>", "<meta http-equiv=content-type content='text/html; charset=x'>",
+             "<meta http-equiv=Content-Type content='text/html; charset=x'>", "<meta HTTP-EQUIV=CONTENT-TYPE CONTENT='text/html; charset=x'>",
+             "<meta content='text/html; charset=x' http-equiv=Content-Type>", ""]
+    for m in metas:
+        for pad in (0, 1100):
+            for enc in ("utf-8", "koi8-r", "windows-1251", "shift_jis", "iso-8859-2"):
+                for omit in (False, True):
+                    text = ("<!DOCTYPE html><html><head><title>" + "t" * pad + "</title>" + m +
+                            "</head><body><p title='Привет'>héllo — Ж</p></body></html>")
+                    roundtrip(ctx, text, enc, omit)
     if ctx.driver_ok:
         ctx.compare("inject", reqs, reals, lean.run_driver(reqs))
 
